@@ -82,6 +82,21 @@ P('C11',
   thorough=dict(cases=30000000, max_size=400, max_seconds=1500, fuzz=dict(seconds=180, jobs=8, max_len=600)),
   )
 
+P('C14',
+  technique='property-based testing: generated (PIL, reference time, offset / zone string, ambient TZ) tuples; oracle = independent civil-calendar arithmetic and glibc localtime_r under a harness-owned TZ switch; TZ state compared around every call',
+  rule='case = (function of 5, PIL, reference time, UTC offset or one of 17 zone strings or NULL, ambient TZ unset / set / same string). '
+       'Non-trivial: PIL month and reference month differ by >= 5, or reference within 2 days of a year boundary, or a DST zone, or a failing call; '
+       'distinct = hash of consumed choices. Wall clock times that do not exist in the zone (DST gap, date line change) are discarded and counted.',
+  level_text='Generated-input search with an explicit oracle: exact expected instant for the UTC-offset functions from harness-side calendar '
+             'arithmetic (nearest-year rule, leap day rule), wall-clock equality in the zone for the zone functions, Annex F window classes, '
+             'window bounds as wall clock times, window contains the converted time; getenv(TZ), tzname, timezone, daylight and a probe localtime '
+             'must be unchanged after every call. Sampling only.',
+  level_note='Trusted: glibc localtime_r / tzdata as the time zone ground truth; harness calendar functions (days_from_civil); reference times equal to 0 or -1 ("current time") are not generated.',
+  design_ref='DESIGN.md section 2, C14',
+  quick=dict(cases=6000000, max_size=64, max_seconds=150),
+  thorough=dict(cases=150000000, max_size=64, max_seconds=1500, fuzz=dict(seconds=120, jobs=8, max_len=64)),
+  )
+
 NOT_YET = {}
 
 
